@@ -6,6 +6,10 @@ from . import env, core, checks
 
 
 def main():
+    if os.environ.get('PYTHONHASHSEED') != '0':
+        # deterministic set / dict-of-str iteration in generators, also for replays
+        os.environ['PYTHONHASHSEED'] = '0'
+        os.execv(sys.executable, [sys.executable, '-m', 'yvm'] + sys.argv[1:])
     ap = argparse.ArgumentParser(prog='yvm')
     ap.add_argument('cmd')
     ap.add_argument('rest', nargs='*')
